@@ -39,7 +39,8 @@ ASSUMPTIONS = [
 REQUIRED = {'results_matched': 2000, 'cancelled_runs': 100, 'discarded_puts': 50,
             'waited_puts': 100, 'concurrent_runs': 50, 'guard_separations': 200,
             'stop_with_pending_work': 100, 'stop_data_last': 100, 'failing_runs': 100,
-            'output_changes_checked': 2000, 'overlong_stop_bounded': 10}
+            'output_changes_checked': 2000, 'overlong_stop_bounded': 10,
+            'stopped_before_initialisation': 6}
 SHARDS = {'quick': 16, 'thorough': 16}
 TIMEOUT = {'quick': 300, 'thorough': 3000}
 
@@ -88,6 +89,15 @@ def run_case(case, ctx):
         hist.log('coro_end', uid, 'ok')
         return ('ret', uid)
 
+    def coro_callable(value):
+        # a plain callable returning a coroutine (documented type of 'coro'): it may fail
+        # already when it is called - a failed run like any other
+        if value != 'STOP' and case.get('sync_raise') and puts[value][2]:
+            hist.log('coro_start', value)
+            hist.log('coro_end', value, 'err')
+            raise RunError(value)
+        return coro(value)
+
     def build():
         class Res(edzed.SBlock):
             def init_regular(self):
@@ -111,7 +121,8 @@ def run_case(case, ctx):
         if case.get('stop_data'):
             kwargs['stop_data'] = dict(STOP_DATA)
         oa = edzed.OutputAsync(
-            'oa', coro=coro, mode=case.get('mode_name', mode), on_success=edzed.Event(ok),
+            'oa', coro=coro_callable if case.get('sync_raise') else coro,
+            mode=case.get('mode_name', mode), on_success=edzed.Event(ok),
             on_error=edzed.Event(err), on_cancel=edzed.Event(cnc),
             on_output=edzed.Event(outp), stop_timeout=case.get('stop_timeout', 100), **kwargs)
         state['oa'] = oa
@@ -143,6 +154,27 @@ def run_case(case, ctx):
         state['alive_before_stop'] = sim.alive()
         hist.log('stop_called')
 
+    async def preinit_main(loop):
+        # the simulation is stopped while another block is still in its asynchronous
+        # initialisation: the OutputAsync block was started but never initialised
+        edzed.reset_circuit()
+        build()
+
+        class Slow(edzed.AddonAsync, edzed.SBlock):
+            async def init_async(self):
+                await asyncio.sleep(5.0)
+                self.set_output(1)
+        Slow('slow', init_timeout=9)
+        sim = harness.Sim()
+        state['sim'] = sim
+        state['t0'] = loop.time()
+        sim.task = asyncio.create_task(sim.circuit.run_forever(), name='vf: simtask')
+        await asyncio.sleep(case['stop'])
+        state['alive_before_stop'] = sim.alive()
+        state['output_before_stop'] = state['oa'].output
+        hist.log('stop_called')
+        await sim.stop()
+
     def setup(loop):
         hist.loop = loop
         lat = case.get('latency')
@@ -150,7 +182,12 @@ def run_case(case, ctx):
             rng = ctx.rng('lat', core.case_hash(case))
             loop.latency = lambda: rng.random() * lat
 
-    out = harness.run_sim(build, drive, drain=30.0, setup=setup)
+    if case.get('preinit_stop'):
+        loop, _r, exc = vloop.run(preinit_main, setup=setup, drain=30.0)
+        edzed.reset_circuit()
+        out = {'loop': loop, 'started': True, 'exc': exc, 'sim': state['sim']}
+    else:
+        out = harness.run_sim(build, drive, drain=30.0, setup=setup)
     loop = out['loop']
     state['started'] = out['started']
     state['error'] = out['sim'].circuit.error
@@ -239,6 +276,8 @@ def judge(case, hist, state, ctx):
         raise core.Violation('stop-not-bounded',
                              f"{where}: stop took {stop_ret - stop_vt} s, stop_timeout "
                              f"{case.get('stop_timeout', 100)}")
+    if case.get('preinit_stop'):
+        ctx.count('stopped_before_initialisation')
     if overlong:
         ctx.count('overlong_stop_bounded')
         if state['final_output'] != 0:
@@ -408,7 +447,9 @@ def judge(case, hist, state, ctx):
                     'output-not-number-of-active-runs',
                     f"{where}: at t={t - t0:.6f} the output changed by {seen.get(t, 0)}, the number of "
                     f"active runs (start..end+guard) by {deltas.get(t, 0)}")
-    if state['final_output'] != 0:
+    never_ran = case.get('preinit_stop') and not case.get('stop_data')
+    if state['final_output'] != 0 and not never_ran:
+        # (a block that was never initialised and had nothing to run keeps its undefined output)
         raise core.Violation('output-not-zero-when-idle', f"{where}: final output {state['final_output']}")
     for e in E:
         if e[2] == 'result':
@@ -471,7 +512,16 @@ def gen(ctx):
                             case['guard_notation'] = '1s'
                         if case['stop_data'] and k % 5 == 2:
                             case['stop_dur'] = 1.0
+                        if k % 6 == 3:
+                            case['sync_raise'] = True
                         yield case, True
+    for mode in ('cancel', 'wait', 'start'):
+        for sd in (True, False):
+            for stop in (0.5, 1.0, 2.5):
+                idx += 1
+                if idx % ctx.nshards == ctx.shard:
+                    yield {'mode': mode, 'guard': None, 'stop_data': sd, 'puts': [], 'stop': stop,
+                           'preinit_stop': True, 'stop_dur': 1.0 if stop == 1.0 else 0}, True
     rng = ctx.rng('random')
     nrand = 300 if quick else 60000
     for i in range(nrand):
@@ -482,6 +532,8 @@ def gen(ctx):
         case = {'mode': mode, 'guard': guard, 'stop_data': rng.random() < 0.5,
                 'puts': [[t, rng.choice(DURS), rng.random() < 0.2] for t in times],
                 'stop': rng.choice([times[-1] + 0.25, times[-1] + 1.5, 14.0, times[0] + 0.5])}
+        if rng.random() < 0.2:
+            case['sync_raise'] = True
         r = rng.random()
         if r < 0.2:
             case['latency'] = rng.choice([1e-4, 2e-3])
